@@ -3,7 +3,7 @@
 (* C16: HTTP/2 connection starts (preface, control frames, HEADERS with    *)
 (* optional padding / priority / CONTINUATION) for header lists encoded in *)
 (* every HPACK representation, with the report Http2!H2Meaning assigns.    *)
-(* Families: rep, framing, prefix, dyn, dynsettings, resp, values.           *)
+(* Families: rep, framing, prefix, dyn, dynsettings, resp, values, special. *)
 (***************************************************************************)
 EXTENDS Http2, Json, IOUtils, TLC, SequencesExt, FiniteSets
 
@@ -121,8 +121,16 @@ ValueCases ==
       r \in {2, 3, 5, 6}, n \in {"x-v", "accept-charset"},
       v \in {"", "a", Chars("z", 126), Chars("q", 127), Chars("m", 300), "~!@#$%^&*()_+{}|:<>?`-=[];',./ ", "0123456789"}}
 
+\* ---- special: the request headers that are taken out of the ordered list (cookie, referer) or read for a field of their own
+\* (user-agent), with empty and ordinary values, in every kind of representation (rep 1 of (referer, "") is the fully indexed
+\* static entry 51), once and twice, between ordinary fields
+SpecialCases ==
+  {Vec(TRUE, Std, Block([i \in 1..4 |-> Fld(ReqPseudo[i], 1)] \o <<Fld(E("accept", "*/*"), 2), Fld(E(n, v), r)>> \o tail), Plain, <<>>, "special") :
+      r \in {1, 2, 4, 6}, n \in {"referer", "cookie", "user-agent", "accept-encoding"}, v \in {"", "a=1"},
+      tail \in {<<Fld(E("x-last", "1"), 4)>>, <<Fld(E("referer", ""), 1), Fld(E("x-last", "1"), 6)>>, <<Fld(E("cookie", ""), 4), Fld(E("referer", "https://r.example/"), 2)>>}}
+
 \* TLC evaluates every constant definition at start-up, so all families are emitted by one run
-Cases == RepCases \cup FramingCases \cup PrefixCases \cup DynCases \cup DynSettingsCases \cup RespCases \cup ValueCases
+Cases == RepCases \cup FramingCases \cup PrefixCases \cup DynCases \cup DynSettingsCases \cup RespCases \cup ValueCases \cup SpecialCases
 CaseSeq == SetToSeq(Cases)
 Emit(i) == PrintT("REPLAY " \o ToJson([i |-> i] @@ CaseSeq[i]))
 EmitMax(j) == PrintT("REPLAY " \o ToJson([i |-> 100000 + j] @@ MaxFrameAt(j)))
